@@ -1,8 +1,164 @@
 import XmppModel.Prelude.Hex
-/-! Driver module for C01: `handle args` answers one protocol line (fields after the
-property id); `none` means the line is not understood (`!bad-op`). -/
-namespace XmppModel.Driver.C01
+import XmppModel.Model.Negotiate
+/-!
+Driver for C01 / C04 (one negotiation model).  Line (fields after the property id):
 
-def handle (_args : List String) : Option String := none
+    run <st0> <ws> <cfg> <script> <picks> <fault>
+
+* `st0`     initial `SessionState`, decimal
+* `ws`      `0`/`1` WebSocket framing (ignored by the model: only the syntax of headers differs)
+* `cfg`     `;`-joined features `ns.loc:nec:proh:negotiable:listReq:listErr:parseErr:mask:restart:negErr`
+            (the last six fields are the scripted behaviour of the callbacks), `-` = none
+* `script`  `;`-joined peer items: `H1`/`H0` header good/bad, `A<i,i,…>` features list with
+            items `ns.loc.req` or `J` (character data), `Ens.loc.iq.payload` another element,
+            `X` stream error, `T` a token that is not a start element; `-` = empty
+* `picks`   `,`-joined names `ns.loc` of the `Negotiate` calls observed on the initiating side
+* `fault`   `-` none, `k` the k-th I/O operation fails, `k+` every operation from the k-th on,
+            `Cn` the context is cancelled when `n` events have happened (counting the model's
+            events that are printed)
+
+Answer: `<events> <outcome> <state>`; events `,`-joined in order (`-` if none): `Wh` header
+written, `R` a read that delivered an item, `Re` read at end of input, `R!`/`Wh!`/`Wl!` failed
+operation, `Lns.loc@st` List, `Pns.loc@st` Parse, `Nns.loc@st` Negotiate, `Wl[a+b]` features
+list written, `Wp` unfinished list flushed after a failed `List`; outcome `done`, `fail:<class>`, `stuck`, `fuel`.
+-/
+namespace XmppModel.Driver.C01
+open XmppModel XmppModel.Negotiate
+
+structure Beh where
+  f : Feature
+  listReq : Bool
+  listErr : Bool
+  parseErr : Bool
+  mask : St
+  restart : Bool
+  negErr : Bool
+
+def parseName (s : String) : Option FName :=
+  match s.splitOn "." with
+  | [a, b] => do pure ⟨← a.toNat?, ← b.toNat?⟩
+  | _ => none
+
+def parseSt (s : String) : Option St := do
+  let n ← s.toNat?
+  if n < 256 then pure (BitVec.ofNat 8 n) else none
+
+def parseBeh (idx : Nat) (s : String) : Option Beh :=
+  match s.splitOn ":" with
+  | [n, nec, proh, ng, lr, le, pe, m, rs, ne] => do
+    let name ← parseName n
+    pure { f := ⟨idx, name, ← parseSt nec, ← parseSt proh, ← parseBool ng⟩, listReq := ← parseBool lr,
+           listErr := ← parseBool le, parseErr := ← parseBool pe, mask := ← parseSt m,
+           restart := ← parseBool rs, negErr := ← parseBool ne }
+  | _ => none
+
+def parseAdvItem (s : String) : Option AdvItem :=
+  if s == "J" then some .junk else
+  match s.splitOn "." with
+  | [a, b, r] => do pure (.feat ⟨← a.toNat?, ← b.toNat?⟩ (← parseBool r))
+  | _ => none
+
+def parsePeer (s : String) : Option Peer :=
+  if s == "H1" then some (.hdr true)
+  else if s == "H0" then some (.hdr false)
+  else if s == "X" then some .serr
+  else if s == "T" then some .nonStart
+  else if s.startsWith "A" then do
+    let rest := (s.drop 1).toString
+    let items ← if rest.isEmpty then some [] else mapM? parseAdvItem (rest.splitOn ",")
+    pure (.adv items)
+  else if s.startsWith "E" then
+    match ((s.drop 1).toString).splitOn "." with
+    | [a, b, iq, p] => do pure (.elem ⟨← a.toNat?, ← b.toNat?⟩ (← parseBool iq) (← parseBool p))
+    | _ => none
+  else none
+
+/-- the scripted callbacks: behaviour is looked up by feature name (first match, like the
+configuration the harness builds); an unknown feature never reaches a callback -/
+def mkOracle (bs : List Beh) (fault : (Nat → Bool) × (List Ev → Bool)) : Oracle :=
+  let look (f : Feature) : Option Beh := bs.find? (fun b => b.f.id == f.id)
+  { neg := fun _ f _ => match look f with
+      | some b => ⟨b.mask, b.restart, b.negErr⟩
+      | none => ⟨0, false, true⟩
+    list := fun _ f _ => match look f with
+      | some b => ⟨b.listReq, b.listErr⟩
+      | none => ⟨false, true⟩
+    parseErr := fun _ f _ => match look f with
+      | some b => b.parseErr
+      | none => true
+    fault := fault.1
+    cancel := fault.2 }
+
+def showName (n : FName) : String := s!"{n.ns}.{n.loc}"
+
+def showEv : Ev → Option String
+  | .hdrOut true => some "Wh"
+  | .hdrOut false => some "Wh!"
+  | .rd _ .got => some "R"
+  | .rd _ .eof => some "Re"
+  | .rd _ .fault => some "R!"
+  | .listCall f st _ => some s!"L{showName f.name}@{st.toNat}"
+  | .listOut _ fs true => some ("Wl[" ++ "+".intercalate (fs.map fun f => showName f.name) ++ "]")
+  | .listOut _ _ false => some "Wl!"
+  | .listAbort true => some "Wp"
+  | .listAbort false => some "Wp!"
+  | .parse f st _ _ => some s!"P{showName f.name}@{st.toNat}"
+  | .listIn _ _ _ _ => none
+  | .neg f st _ _ _ _ => some s!"N{showName f.name}@{st.toNat}"
+  | .refuse _ => none
+
+/-- `(fault, cancel)`; `Cn`: the context is cancelled once `n` events have happened -/
+def parseFault (s : String) : Option ((Nat → Bool) × (List Ev → Bool)) :=
+  let none' : Nat → Bool := fun _ => false
+  let nonec : List Ev → Bool := fun _ => false
+  if s == "-" then some (none', nonec)
+  else if s.startsWith "C" then do
+    let k ← ((s.drop 1).toString).toNat?
+    pure (none', fun tr => decide (k ≤ (tr.filterMap showEv).length))
+  else if s.endsWith "+" then do
+    let k ← ((s.dropEnd 1).toString).toNat?
+    pure (fun i => decide (k ≤ i), nonec)
+  else do
+    let k ← s.toNat?
+    pure (fun i => i == k, nonec)
+
+def showCls : ErrCls → String
+  | .io => "io" | .cb => "cb" | .policy => "policy" | .streamErr => "streamerr" | .proto => "proto"
+
+def showOutcome : Pc → String
+  | .done => "done"
+  | .fail c => "fail:" ++ showCls c
+  | .stuck => "stuck"
+  | .crash => "PANIC"
+  | _ => "fuel"
+
+/-- `run` that stops stepping once a final control point is reached (final points are
+fixed points of `step`; `Lemmas/NegotiateDriver.lean: runFast_eq_run`, restated as
+`C01_driver_runs_model`) -/
+def runFast (C : List Feature) (O : Oracle) : Nat → Conf → Conf
+  | 0, c => c
+  | n + 1, c => if c.pc.final then c else runFast C O n (step C O c)
+
+def advLen : Peer → Nat
+  | .adv items => items.length + 1
+  | _ => 1
+
+/-- the bound of `C01_terminates` (Props/C01.lean): enough steps to reach a final point -/
+def fuelFor (C : List Feature) (script : List Peer) (picks : List FName) : Nat :=
+  (50 + C.length) * (script.map advLen).sum + picks.length + (28 + C.length)
+
+def handle (args : List String) : Option String :=
+  match args with
+  | ["run", st0, _ws, cfg, script, picks, fault] => do
+    let st0 ← parseSt st0
+    let bs ← mapM? (fun (p : String × Nat) => parseBeh p.2 p.1) (splitList cfg ';').zipIdx
+    let sc ← mapM? parsePeer (splitList script ';')
+    let pk ← mapM? parseName (splitList picks ',')
+    let fl ← parseFault fault
+    let C := bs.map (·.f)
+    let c := runFast C (mkOracle bs fl) (fuelFor C sc pk) (init st0 sc pk)
+    let evs := c.tr.reverse.filterMap showEv
+    pure s!"{joinList evs} {showOutcome c.pc} {c.st.toNat}"
+  | _ => none
 
 end XmppModel.Driver.C01
